@@ -50,7 +50,7 @@ func init() {
 
 func c06Workloads() []Workload {
 	wls := workloads(false)
-	return []Workload{wls[0], wls[1], wls[2], wls[4]}
+	return []Workload{wls[0], wls[1], wls[2], wls[4], wls[5], wls[6]}
 }
 
 func faultPhase(f faultSpec, fileSeqOfFirst string) string {
@@ -180,6 +180,9 @@ func c06One(wl Workload, f faultSpec, res *c06Res) {
 	if viol == nil && w.infra == "" && !w.closedColl {
 		w.vfs.Healed = true
 		for i := 0; i < 4; i++ {
+			if p0, _ := w.storePrefix(); p0 == len(w.models)-1 {
+				break // nothing is behind: do not run extra rounds (they could hide a deferred effect behind a compaction)
+			}
 			if w.s.Enabled(w.merger) {
 				w.run(w.merger)
 				w.settle()
@@ -236,10 +239,10 @@ func checkC06(prop, tier string) int {
 	t0 := time.Now()
 	pool := NewPool()
 	wls := c06Workloads()
-	use := []int{0, 1, 2}
+	use := []int{0, 1, 2, 4, 5}
 	counts := []int{1}
 	if tier == "thorough" {
-		use = []int{0, 1, 2, 3}
+		use = []int{0, 1, 2, 3, 4, 5}
 		counts = []int{1, 2, 3, -1}
 	}
 	var jobs []Job
